@@ -256,7 +256,41 @@ def whole_files(ctx):
         shutil.rmtree(d, ignore_errors=True)
 
 
+def foreign_bytes_rewritten(ctx):
+    """"zeroed reserved fields" also holds for what the library writes AFTER reading somebody else's bytes: layout-conformant encodings
+    with junk in every reserved / padding position (the model's care mask says where) are decoded, and the decoded object is
+    written again — the result must be the layout-driven encoding of its values, reserved fields zero, whatever the junk was."""
+    import sessions.c12 as c12
+    cases = B.gen_cases(ctx, ctx.n(250, 4000))
+    models = B.model_side(cases)
+    for (kind, v), m in zip(cases, models):
+        if m["mask"] is None:
+            continue
+        enc, mask = m["enc"], m["mask"][:len(m["enc"])]
+        ndc = sum(1 for x in mask if x == 0)
+        if not ndc:
+            continue
+        rep = dict(kind=kind, v=v)
+        for style in c12.STYLES[:2]:
+            sc = c12.scramble(ctx.rng, enc, mask, style)
+            ctx.case(("foreign-bytes-rewritten", kind, str(v)[:200], style), nontrivial=True, tags=("foreign-bytes-rewritten", kind))
+            try:
+                blk = A.klass(kind)._build(io.BytesIO(sc + B.SENTINEL), m["fmt"])
+                again = A.encode(blk)
+            except Exception as e:
+                ctx.fail(f"{kind}: layout-conformant bytes with junk in the reserved fields cannot be decoded and written again: {type(e).__name__}: {str(e)[:80]}", rep,
+                         ident=f"{kind} foreign bytes: decode/rewrite raises")
+                break
+            if again != enc:
+                i = next((i for i, (a, b) in enumerate(zip(again, enc)) if a != b), min(len(again), len(enc)))
+                ctx.fail(f"{kind}: a block decoded from bytes with junk in its reserved fields is written back with byte {i} = {again[i] if i < len(again) else None} "
+                         f"where the layout has {enc[i] if i < len(enc) else None} (reserved fields are not zeroed / length {len(again)} vs {len(enc)})", rep,
+                         ident=f"{kind} foreign bytes: rewrite differs from the layout")
+                break
+
+
 def run(ctx):
+    foreign_bytes_rewritten(ctx)
     whole_files(ctx)
     n = ctx.n(900, 10000)
     for c0 in range(0, n, 2500):
